@@ -135,6 +135,23 @@ impl FileDesc {
             ));
         }
 
+        if oti.fec_encoding_id == oti::FECEncodingID::ReedSolomonGF28
+            || oti.fec_encoding_id == oti::FECEncodingID::ReedSolomonGF28UnderSpecified
+        {
+            // GF(2^8): a block (source symbols + parity symbols) cannot have more than 256 symbols
+            let (a_large, _, _, _) = partition::block_partitioning(
+                oti.maximum_source_block_length as u64,
+                object.transfer_length,
+                oti.encoding_symbol_length as u64,
+            );
+            if a_large + oti.max_number_of_parity_symbols as u64 > 256 {
+                return Err(FluteError::new(format!(
+                    "Source blocks of {} symbols with {} parity symbols exceed the 256 symbols of Reed Solomon GF(2^8), your object is incompatible with the FEC parameters of your OTI",
+                    a_large, oti.max_number_of_parity_symbols
+                )));
+            }
+        }
+
         if oti.fec_encoding_id == oti::FECEncodingID::RaptorQ
             || oti.fec_encoding_id == oti::FECEncodingID::Raptor
         {
